@@ -197,9 +197,15 @@ def _int_trees(n_leaves: int):
 
 def _k1_cases(tier):
     cases = []
+    quick = (tier == 'quick')
     # (a) line-num of an integer expression, and its negation at the line level
     for n in (1, 2):
         for it in _int_trees(n):
+            if quick and n == 2:
+                # quick tier: the 2-leaf trees whose two leaves carry the same negation (half of them)
+                body = it[1] if it[0] == '!' else it
+                if (body[1][0] == '!') != (body[2][0] == '!'):
+                    continue
             cases.append(('n', it))
             cases.append(('!', ('n', it)))
     # (b) line-level combinations of line-num comparisons, unknown-class matchers and constants
@@ -208,6 +214,8 @@ def _k1_cases(tier):
     for l in L:
         for r in R:
             for op in '&|':
+                if quick and not (r[0] in ('u', 'k') or (l[0] == '!' and r[0] == '!')):
+                    continue
                 cases.append((op, l, r))
                 cases.append(('!', (op, l, r)))
     for r in R[2:]:
@@ -243,6 +251,236 @@ def _k1_cases(tier):
     return out
 
 
+# --------------------------------------------------------------------------- shared: transformer application
+
+class _NoFiles:
+    """A DirFileSpace that must never be asked for a path: texts here are small enough to stay in the memory
+    buffer (mem_buff_size 2**20), so nothing may touch the file system."""
+
+    def new_path(self, name_suffix=None):
+        raise AssertionError('harness: unexpected use of the tmp file space')
+
+    def new_path_as_existing_dir(self, name_suffix=None):
+        raise AssertionError('harness: unexpected use of the tmp file space')
+
+    def sub_dir_space(self, name_suffix=None):
+        return self
+
+
+LINES = ('l1\n', 'l2\n', 'l3\n', 'l4\n', 'l5\n', 'l6\n')
+
+
+def _text(n: int, last_unterminated: bool) -> str:
+    t = ''.join(LINES[:n])
+    if last_unterminated and n > 0:
+        t = t[:-1]
+    return t
+
+
+def _apply_transformer(text_of_transformer: str, symbols, model_text: str, cache: bool = True):
+    """Parses a string-transformer with the REAL parser, resolves it and applies it to an in-memory text.
+    Returns the list of output lines."""
+    from vsym import xly
+    from exactly_lib.impls.types.string_source import constant_str
+    from exactly_lib.impls.types.string_transformer import parse_string_transformer
+    from exactly_lib.test_case.app_env import ApplicationEnvironment
+    if cache:
+        sdv = xly.parse_cached('string-transformer', parse_string_transformer.parsers(False).full, text_of_transformer)
+    else:
+        # the -line-nums SDV memoises its evaluated ranges: a fresh parse per evaluation
+        from exactly_lib.section_document.element_parsers.token_stream_parser import new_token_parser
+        sdv = parse_string_transformer.parsers(False).full.parse_from_token_parser(new_token_parser(text_of_transformer))
+    ddv = sdv.resolve(symbols)
+    err = ddv.validator.validate_pre_sds_if_applicable(None)
+    if err is not None:
+        raise ValueError('harness: unexpected validation error')
+    space = _NoFiles()
+    tr = ddv.value_of_any_dependency(None).primitive(ApplicationEnvironment(None, None, space, 2 ** 20))
+    model = constant_str.string_source(model_text, space)
+    result = tr.transform(model)
+    with result.contents().as_lines as lines:
+        return list(lines)
+
+
+def _install_ints(ks):
+    from vsym import xly
+    from exactly_lib.impls.types.integer import validation as int_validation
+    xly.install_int_placeholders(ks)
+    int_validation.python_evaluate = xly._python_evaluate_stub
+
+
+# --------------------------------------------------------------------------- K2
+
+def _pre_k2(lo: int, up: int) -> bool:
+    kind = ob.case()['kind']
+    if kind in ('upper', 'unlimited', 'empty') and lo != 0:
+        return False
+    if kind in ('lower', 'unlimited', 'empty') and up != 0:
+        return False
+    if kind == 'finite' and lo > up:
+        return False  # IntInterval contract: lower <= upper
+    # intervals handed to the reader are adapted to the line-number range (all limits >= 1)
+    if kind in ('lower', 'finite') and lo < 1:
+        return False
+    if kind in ('upper', 'finite') and up < 1:
+        return False
+    return True
+
+
+def k2_read_by_interval(lo: int, up: int) -> bool:
+    """
+    pre: _pre_k2(lo, up)
+    post: _
+    """
+    from exactly_lib.impls.types.line_matcher import model_construction
+    from exactly_lib.util.interval import int_interval
+    case = ob.case()
+    kind, n = case['kind'], case['n']
+    iv = {'empty': int_interval.Empty, 'unlimited': int_interval.unlimited,
+          'lower': lambda: int_interval.lower_limit(lo), 'upper': lambda: int_interval.upper_limit(up),
+          'finite': lambda: int_interval.finite(lo, up)}[kind]()
+    lines = list(LINES[:n])
+    got = list(model_construction.original_and_model_iter_from_file_line_iter__interval(iv, iter(lines)))
+    exp = []
+    for i in range(n):
+        num = i + 1
+        inside = (kind != 'empty') and (kind in ('upper', 'unlimited') or num >= lo) and (
+                kind in ('lower', 'unlimited') or num <= up)
+        if case.get('oracle_bug') and kind in ('upper', 'finite') and num == up:
+            inside = False
+        if inside:
+            exp.append((lines[i], (num, lines[i].rstrip('\n'))))
+    return ob.post(got == exp)
+
+
+# --------------------------------------------------------------------------- K3
+
+def _pre_k3(o0, o1, k0, k1, u1, u2, u3, u4) -> bool:
+    case = ob.case()
+    tree, n = case['tree'], case['n']
+    nc = n_of(tree, 'c')
+    if not (0 <= o0 <= 5) or (nc < 2 and (o1 != 0 or k1 != 0)) or not (0 <= o1 <= 5):
+        return False
+    if nc < 1 and (o0 != 0 or k0 != 0):
+        return False
+    us = (u1, u2, u3, u4)
+    if n_of(tree, 'u') == 0 and (u1 or u2 or u3 or u4):
+        return False
+    for i in range(n, 4):
+        if us[i]:
+            return False
+    return True
+
+
+def k3_filter_end_to_end(o0: int, o1: int, k0: int, k1: int, u1: bool, u2: bool, u3: bool, u4: bool) -> bool:
+    """
+    pre: _pre_k3(o0, o1, k0, k1, u1, u2, u3, u4)
+    post: _
+    """
+    from vsym import xly
+    from exactly_lib.symbol.value_type import ValueType
+    case = ob.case()
+    tree, n = case['tree'], case['n']
+    ops = [ob.concrete_int(o0, 0, 5), ob.concrete_int(o1, 0, 5), 0]
+    us = (u1, u2, u3, u4)
+    log = []
+    # the unknown-class matcher U0 has one arbitrary verdict per line
+    syms = xly.symbol_table({
+        'U0': xly.matcher_symbol(xly.StubMatcher('U0', lambda m: us[m[0] - 1], log), ValueType.LINE_MATCHER),
+    })
+    _install_ints([k0, k1, 0])
+    expr = render_line(tree, ops, [True], True)
+    text = _text(n, case.get('unterminated', False))
+    out = _apply_transformer('filter ' + expr, syms, text)
+    # reference: the same expression evaluated line by line by the real matcher on (number, contents)
+    m = _line_matcher(render_line(tree, ops, [True], False), False, False) if False else None
+    from exactly_lib.impls.types.line_matcher import parse_line_matcher
+    msdv = xly.parse_cached('line-matcher', parse_line_matcher.parsers(False).full, render_line(tree, ops, [True], False))
+    matcher = xly.primitive_of_matcher_sdv(msdv, syms)
+    src_lines = text.split('\n')
+    full = [l + '\n' for l in src_lines[:-1]] + ([src_lines[-1]] if src_lines[-1] != '' else [])
+    exp = [l for i, l in enumerate(full) if matcher.matches_w_trace((i + 1, l.rstrip('\n'))).value]
+    if case.get('oracle_bug'):
+        exp = exp[1:]
+    return ob.post(out == exp)
+
+
+# --------------------------------------------------------------------------- K4
+
+RANGE_KINDS = ('single', 'lower', 'upper', 'both')
+
+
+def _range_text(kind: str, i: int) -> str:
+    a, b = 'K%d' % (2 * i), 'K%d' % (2 * i + 1)
+    return {'single': a, 'lower': a + ':', 'upper': ':' + b, 'both': a + ':' + b}[kind]
+
+
+def _tr(x: int, n: int) -> int:
+    """negative numbers count from the end: -1 is the last line"""
+    return x if x >= 0 else n + 1 + x
+
+
+def _in_range(kind: str, a: int, b: int, num: int, n: int) -> bool:
+    if kind == 'single':
+        return num == _tr(a, n)
+    if kind == 'lower':
+        return num >= _tr(a, n)
+    if kind == 'upper':
+        return num <= _tr(b, n)
+    return _tr(a, n) <= num <= _tr(b, n)
+
+
+def _pre_k4(a0, b0, a1, b1, a2, b2) -> bool:
+    kinds = ob.case()['kinds']
+    n = ob.case()['n']
+    vals = ((a0, b0), (a1, b1), (a2, b2))
+    for i in range(3):
+        a, b = vals[i]
+        if i >= len(kinds):
+            if a != 0 or b != 0:
+                return False
+            continue
+        k = kinds[i]
+        if k in ('single', 'lower') and b != 0:
+            return False
+        if k == 'upper' and a != 0:
+            return False
+        # all of Z is covered by the window [-n-3, n+3]: every bound beyond it behaves as the window's edge does
+        # (checked separately by the K4:far obligations with unbounded integers on fewer ranges)
+        if ob.case().get('window') and not (-n - 3 <= a <= n + 3 and -n - 3 <= b <= n + 3):
+            return False
+    return True
+
+
+def k4_line_nums(a0: int, b0: int, a1: int, b1: int, a2: int, b2: int) -> bool:
+    """
+    pre: _pre_k4(a0, b0, a1, b1, a2, b2)
+    post: _
+    """
+    from vsym import xly
+    case = ob.case()
+    kinds, n = case['kinds'], case['n']
+    _install_ints([a0, b0, a1, b1, a2, b2])
+    expr = 'filter -line-nums ' + ' '.join(_range_text(k, i) for i, k in enumerate(kinds))
+    text = _text(n, case.get('unterminated', False))
+    out = _apply_transformer(expr, xly.symbol_table({}), text, cache=False)
+    vals = ((a0, b0), (a1, b1), (a2, b2))
+    src_lines = text.split('\n')
+    full = [l + '\n' for l in src_lines[:-1]] + ([src_lines[-1]] if src_lines[-1] != '' else [])
+    exp = []
+    for i, l in enumerate(full):
+        num = i + 1
+        keep = False
+        for j, k in enumerate(kinds):
+            if _in_range(k, vals[j][0], vals[j][1], num, n):
+                keep = True
+        if case.get('oracle_bug') and num == n:
+            keep = not keep
+        if keep:
+            exp.append(l)
+    return ob.post(out == exp)
+
+
 def _tree_name(t) -> str:
     return render_line(t, [0, 0, 0], [True], False).replace('== ', '').replace('line-num', 'ln').replace(' ', '')
 
@@ -263,6 +501,84 @@ def obligations(tier: str) -> List[Ob]:
                   case=dict(tree=('n', ('c', 0)), oracle_bug=True), kernel='K1',
                   bound='seeded oracle error: demands interval == accepted set', timeout=120,
                   expect=ob.REFUTE, real=REAL_K1))
+    # ---- K2
+    real_k2 = ('exactly_lib.impls.types.line_matcher.model_construction.original_and_model_iter_from_file_line_iter__interval',
+               'exactly_lib.impls.types.line_matcher.model_construction._lines_interval',
+               'exactly_lib.impls.types.line_matcher.model_construction.original_and_model_iter_from_file_line_iter')
+    for n in ((0, 1, 3) if tier == 'quick' else (0, 1, 2, 3, 4, 5, 6)):
+        for kind in ('empty', 'unlimited', 'lower', 'upper', 'finite'):
+            obs.append(Ob(name='K2:%s:N%d' % (kind, n), fn='k2_read_by_interval', case=dict(kind=kind, n=n), kernel='K2',
+                          bound='%s interval with every limit in Z (>= 1: adapted to the line-number range), text of %d lines' % (kind, n),
+                          timeout=300, real=real_k2))
+    obs.append(Ob(name='K2:seeded-oracle-error', fn='k2_read_by_interval', case=dict(kind='finite', n=3, oracle_bug=True),
+                  kernel='K2', bound='seeded: upper limit exclusive', timeout=120, expect=ob.REFUTE))
+    # ---- K3
+    real_k3 = REAL_K1 + (
+        'exactly_lib.impls.types.string_transformer.impl.filter.line_matcher._FilterByLineMatcher.transform',
+        'exactly_lib.impls.types.string_transformer.impl.filter.line_matcher._ContentsViaAsLines',
+        'exactly_lib.impls.types.string_transformer.impl.filter.string_sources.TransformedContentsViaAsLinesBase',
+        'exactly_lib.impls.types.string_transformer.parse_string_transformer.parsers',
+        'exactly_lib.impls.types.line_matcher.model_construction.original_and_model_iter_from_file_line_iter__interval',
+    )
+    k3_trees = [('n', ('c', 0)), ('!', ('n', ('c', 0))), ('!', ('n', ('|', ('c', 0), ('c', 1)))),
+                ('!', ('n', ('!', ('|', ('c', 0), ('c', 1))))), ('&', ('n', ('c', 0)), ('u', 0)),
+                ('|', ('!', ('n', ('c', 0))), ('u', 0)), ('n', ('&', ('c', 0), ('!', ('c', 1))))]
+    if tier == 'thorough':
+        k3_trees += [('n', ('|', ('c', 0), ('c', 1))), ('!', ('n', ('&', ('c', 0), ('c', 1)))),
+                     ('!', ('&', ('n', ('c', 0)), ('u', 0))), ('|', ('n', ('c', 0)), ('n', ('c', 1))),
+                     ('&', ('!', ('n', ('c', 0))), ('!', ('n', ('c', 1)))), ('u', 0), ('!', ('u', 0))]
+    for t in k3_trees:
+        for n, unt in (((2, False), (3, True)) if tier == 'quick' else ((0, False), (1, False), (2, False), (3, True), (4, False))):
+            nc = n_of(t, 'c')
+            obs.append(Ob(name='K3:%s:N%d%s' % (_tree_name(t), n, 'u' if unt else ''), fn='k3_filter_end_to_end',
+                          case=dict(tree=t, n=n, unterminated=unt), kernel='K3',
+                          bound='`filter %s` on a text of %d lines%s: every comparison operator, every K_i in Z, every verdict '
+                                'of U0 per line' % (render_line(t, [0, 0, 0], [True], True).replace('==', 'OP'), n,
+                                                    ' (last line unterminated)' if unt else ''),
+                          timeout=(300 if nc <= 1 else 1500), real=real_k3, stubs=(STUB_INT, STUB_UNKNOWN),
+                          entry='parse_string_transformer.parsers().full -> transform(in-memory text).as_lines'))
+    obs.append(Ob(name='K3:seeded-oracle-error', fn='k3_filter_end_to_end',
+                  case=dict(tree=('n', ('c', 0)), n=2, oracle_bug=True), kernel='K3', bound='seeded: oracle drops a line',
+                  timeout=120, expect=ob.REFUTE))
+    # ---- K4
+    real_k4 = (
+        'exactly_lib.impls.types.string_transformer.impl.filter.line_nums.range_merge',
+        'exactly_lib.impls.types.string_transformer.impl.filter.line_nums.transformers.SingleLineRangeTransformer',
+        'exactly_lib.impls.types.string_transformer.impl.filter.line_nums.transformers.MultipleLineRangesTransformer',
+        'exactly_lib.impls.types.string_transformer.impl.filter.line_nums.transformers._SingleRangeSourceConstructor',
+        'exactly_lib.impls.types.string_transformer.impl.filter.line_nums.sources',
+        'exactly_lib.impls.types.string_transformer.impl.filter.line_nums.resolvers._RangeParser',
+        'exactly_lib.impls.types.string_transformer.impl.filter.parse',
+    )
+    import itertools
+    k4_cases = []
+    if tier == 'quick':
+        for k in RANGE_KINDS:
+            for n in (0, 2, 3):
+                k4_cases.append(((k,), n, False, False))
+        for ks in (('both', 'single'), ('single', 'both'), ('lower', 'upper')):
+            k4_cases.append((ks, 3, False, True))
+        k4_cases.append((('both', 'both'), 2, False, True))
+    else:
+        for k in RANGE_KINDS:
+            for n in (0, 1, 2, 3, 4, 5):
+                k4_cases.append(((k,), n, n == 3, False))
+        for ks in itertools.product(RANGE_KINDS, repeat=2):
+            for n in (0, 2, 3, 4):
+                k4_cases.append((ks, n, False, True))
+        for ks in (('single', 'both', 'lower'), ('both', 'upper', 'single'), ('both', 'both', 'both'), ('single', 'single', 'single')):
+            k4_cases.append((ks, 3, False, True))
+    for ks, n, unt, window in k4_cases:
+        obs.append(Ob(name='K4:%s:N%d%s' % ('+'.join(ks), n, 'u' if unt else ''), fn='k4_line_nums',
+                      case=dict(kinds=ks, n=n, unterminated=unt, window=window), kernel='K4',
+                      bound='`filter -line-nums` with ranges of forms %s, every bound in %s, text of %d lines' % (
+                          list(ks), ('[-N-3, N+3]' if window else 'Z'), n),
+                      timeout=(400 if len(ks) == 1 else 2400), real=real_k4, stubs=(STUB_INT,),
+                      entry='parse_string_transformer.parsers().full -> transform(in-memory text).as_lines',
+                      outside=(('bounds outside [-N-3, N+3] for lists of >= 2 ranges',) if window else ())))
+    obs.append(Ob(name='K4:seeded-oracle-error', fn='k4_line_nums',
+                  case=dict(kinds=('both',), n=2, oracle_bug=True), kernel='K4', bound='seeded: oracle flips the last line',
+                  timeout=120, expect=ob.REFUTE))
     return obs
 
 
